@@ -52,11 +52,12 @@ pub trait BoxNew<T>: Sized { spec fn boxed_ok(t: &T, r: &Self) -> bool; fn box_n
 pub fn box_new<B: BoxNew<T>, T>(t: T) -> (r: B) ensures B::boxed_ok(&t, &r) { B::box_new_(t) }
 // a closure literal passed by value (rule L3): what it captured and which literal it is
 #[verifier::external_body] pub struct ClosureObj { x: u8 }
-impl ClosureObj { pub uninterp spec fn captured(&self) -> Own; pub uninterp spec fn code(&self) -> int; pub uninterp spec fn cap0(&self) -> int; }
+// captured(): joined view of the captures; code(): which closure literal; cap0..cap2(): ghost ids of up to three captures the contracts name
+impl ClosureObj { pub uninterp spec fn captured(&self) -> Own; pub uninterp spec fn code(&self) -> int; pub uninterp spec fn cap0(&self) -> int; pub uninterp spec fn cap1(&self) -> int; pub uninterp spec fn cap2(&self) -> int; pub uninterp spec fn flag(&self) -> bool; }
 impl OwnView for ClosureObj { open spec fn own(&self) -> Own { self.captured() } }
-impl<T> BoxedFn<T> { pub uninterp spec fn cap0(&self) -> int; }
+impl<T> BoxedFn<T> { pub uninterp spec fn cap0(&self) -> int; pub uninterp spec fn cap1(&self) -> int; pub uninterp spec fn cap2(&self) -> int; pub uninterp spec fn flag(&self) -> bool; }
 impl<T> BoxNew<ClosureObj> for BoxedFn<T> {
-    open spec fn boxed_ok(t: &ClosureObj, r: &Self) -> bool { r.captured() == t.captured() && r.code() == t.code() && r.cap0() == t.cap0() }
+    open spec fn boxed_ok(t: &ClosureObj, r: &Self) -> bool { r.captured() == t.captured() && r.code() == t.code() && r.cap0() == t.cap0() && r.cap1() == t.cap1() && r.cap2() == t.cap2() && r.flag() == t.flag() }
     #[verifier::external_body] fn box_new_(t: ClosureObj) -> (r: Self) { unimplemented!() }
 }
 
